@@ -21,6 +21,7 @@ class Case(object):
         self.ids = None
         self.decoded = None
         self.extra_widths = None
+        self.ones_by_sum = None     # compressed: per field, missing entries written as minimum + difference = all ones
         self.bytes = None
         self.info = None
         self.features = set()
@@ -55,7 +56,7 @@ class Case(object):
 
     def key(self):
         h = hashlib.sha1()
-        h.update(repr((sorted(self.meta.items(), key=lambda kv: kv[0]), self.ids, self.extra_widths)).encode())
+        h.update(repr((sorted(self.meta.items(), key=lambda kv: kv[0]), self.ids, self.extra_widths, self.ones_by_sum)).encode())
         h.update(repr(self.raw_matrix()).encode())
         return h.hexdigest()[:20]
 
@@ -72,6 +73,7 @@ class Case(object):
             raws = {'subsets': [[enc(f.raws[0]) for f in w.fields if f.kind != 'const']
                                 for w in self.decoded.subsets]}
         return {'meta': meta, 'ids': self.ids, 'raws': raws, 'extra_widths': self.extra_widths,
+                'ones_by_sum': self.ones_by_sum,
                 'bytes_hex': self.bytes.hex() if self.bytes is not None else None,
                 'features': sorted(self.features)}
 
@@ -86,6 +88,7 @@ class Case(object):
         c.meta = meta
         c.ids = list(d['ids'])
         c.extra_widths = d.get('extra_widths')
+        c.ones_by_sum = d.get('ones_by_sum')
         c.tables = tables_of_meta(meta)
         c.tree = rtree.parse(c.ids, c.tables)
         if meta['is_compressed']:
@@ -160,7 +163,7 @@ def tables_of_meta(meta):
 
 
 def build_bytes(case, surplus=None, declared=None, declared_total=None):
-    bits = codec.data_bits(case.decoded, case.extra_widths)
+    bits = codec.data_bits(case.decoded, case.extra_widths, case.ones_by_sum)
     case.data_bits = bits
     case.bytes, case.info = frame.build(case.meta, case.ids, bits, surplus, declared, declared_total)
     return case.bytes
@@ -206,6 +209,7 @@ class GenOpts(object):
         self.local_tables = True
         self.template = gtemplates.Opts(max_ids=20 if tier == 'quick' else 40)
         self.extra_widths = True
+        self.ones_by_sum = 'codeflag'   # None / 'codeflag' (code, flag, associated, skipped fields) / 'all' (numeric too)
         self.max_fields = 250
         self.__dict__.update(kw)
 
@@ -255,6 +259,18 @@ def gen_case(ch, opts, fixed=None):
     if compressed and opts.extra_widths and ch.bool(1, 3):
         fs = c.decoded.subsets[0].fields
         c.extra_widths = [ch.weighted([(5, 0), (1, 1), (1, 2), (1, 3), (1, 60)]) for _ in fs]
+    if compressed and opts.ones_by_sum and nsub > 1 and ch.bool(1, 3):
+        kinds = ('code', 'assoc', 'skip') if opts.ones_by_sum == 'codeflag' else ('code', 'assoc', 'skip', 'num')
+        fs = c.decoded.subsets[0].fields
+        def canonical(f):
+            # a code table whose unit text is not one of the two canonical spellings is numeric to the library (DESIGN 10-2)
+            e = c.tables.B.get(f.elem_id) if f.kind == 'code' else None
+            return e is None or not e.sut_numeric_codeish
+        flags = [f.kind in kinds and f.role == 'data' and f.nbits > 1 and any(f.is_missing_raw(x) for x in f.raws)
+                 and not all(f.is_missing_raw(x) for x in f.raws) and canonical(f) and ch.bool(2, 3) for f in fs]
+        if any(flags):
+            c.ones_by_sum = flags
+            tfeat = set(tfeat) | {'missing_written_as_sum'}
     c.features = set(tfeat) | c.decoded.features()
     c.features.add('edition%d' % edition)
     c.features.add('compressed' if compressed else 'uncompressed')
